@@ -1,8 +1,281 @@
 import SLModel.Drv.Util
+import SLModel.Core.Query
 open Lean
 namespace SL.Drv.C07
+open SL.Drv SL.Query
 
-/-- stub: no model operations for C07 yet -/
-def handle (_req : Json) : Except String Json := .error "C07: not implemented"
+/-! JSON glue for C07.  Protocol (all model inputs are arrays, never objects with free keys):
+
+* `{"op":"needs","query":Q,"default_fields":[..]}` →
+  `{"pairs":[[field,text],..]}` — the (field, text) pairs whose search analysis the model needs.
+* `{"op":"rxneeds", <ctx>, "query":Q}` → `{"patterns":[[field,pattern],..]}` — analysed regex
+  patterns to be evaluated by the harness with the real regex engine.
+* `{"op":"run", <ctx>, "segments":[..], "query":Q, "filter":F?}` → mechanism and spec results.
+* `{"op":"parse","query":"…"}` → the parsed query string (for the parser correspondence).
+
+`<ctx>` = `"kinds":[[field,"text"|"keyword"],..], "default_fields":[..],
+ "analysis":[[field,text,[[tok,pos],..],norm],..], "rx":[[pattern,[term,..]],..], "fuzzy":{..}?`.
+`Q`/`F` are the repository's own request JSON. -/
+
+def toStr (s : String) : Str := s.toList.map Char.toNat
+def ofStr (s : Str) : String := String.ofList (s.map Char.ofNat)
+
+def jStr (j : Json) : Except String Str := do return toStr (← j.getStr?)
+def jStrs (j : Json) : Except String (List Str) := do (← j.getArr?).toList.mapM jStr
+
+def strJ (s : Str) : Json := Json.str (ofStr s)
+
+def jTok (j : Json) : Except String Tok := do
+  let a ← j.getArr?
+  match a.toList with
+  | [t, p] => return ⟨← jStr t, ← p.getNat?⟩
+  | _ => throw "token: [text,pos] expected"
+
+/-- `fields`: list of names or of `{field, boost}` objects -/
+def jFieldNames (j : Json) : Except String (List Str) := do
+  (← j.getArr?).toList.mapM (fun x =>
+    match x with
+    | .str s => pure (toStr s)
+    | _ => do jStr (← x.getObjVal? "field"))
+
+partial def jFlt (j : Json) : Except String Flt := do
+  if let .ok v := j.getObjVal? "KeywordEq" then
+    return .kwEq (toStr (← getStr v "field")) (toStr (← getStr v "value"))
+  if let .ok v := j.getObjVal? "KeywordIn" then
+    return .kwIn (toStr (← getStr v "field")) (← jStrs (← v.getObjVal? "values"))
+  if let .ok v := j.getObjVal? "I64Range" then
+    return .i64Range (toStr (← getStr v "field")) (← getInt v "min") (← getInt v "max")
+  if let .ok v := j.getObjVal? "And" then
+    return .and (← (← v.getArr?).toList.mapM jFlt)
+  if let .ok v := j.getObjVal? "Or" then
+    return .or (← (← v.getArr?).toList.mapM jFlt)
+  if let .ok v := j.getObjVal? "Not" then
+    return .not (← jFlt v)
+  throw s!"unsupported filter {j.compress}"
+
+def jFlts (j : Json) (k : String) : Except String (List Flt) := do
+  match getOpt j k with
+  | none => return []
+  | some v => (← v.getArr?).toList.mapM jFlt
+
+def optNat (j : Json) (k : String) : Except String (Option Nat) :=
+  match getOpt j k with
+  | none => pure none
+  | some v => do return some (← v.getNat?)
+
+def jMsm (j : Json) : Except String Msm :=
+  match j with
+  | .str s =>
+    let t := s.toList
+    match t.reverse with
+    | '%' :: r =>
+      match (String.ofList r.reverse).toNat? with
+      | some p => pure (.pct p)
+      | none => throw "unsupported: non-integral minimum_should_match percentage"
+    | _ => throw "unsupported: minimum_should_match percentage without %"
+  | _ => do return .count (← j.getNat?)
+
+partial def jQ (j : Json) : Except String Q := do
+  if let .str s := j then return .queryString (toStr s) none
+  let ty ← getStr j "type"
+  let subs (k : String) : Except String (List Q) :=
+    match getOpt j k with
+    | none => pure []
+    | some v => do (← v.getArr?).toList.mapM jQ
+  match ty with
+  | "match_all" => return .matchAll
+  | "term" => return .term (toStr (← getStr j "field")) (toStr (← getStr j "value"))
+  | "prefix" => return .pfx (toStr (← getStr j "field")) (toStr (← getStr j "value")) ((← optNat j "max_expansions").getD 50)
+  | "wildcard" => return .wildcard (toStr (← getStr j "field")) (toStr (← getStr j "value")) ((← optNat j "max_expansions").getD 100)
+  | "regex" => return .regex (toStr (← getStr j "field")) (toStr (← getStr j "value")) ((← optNat j "max_expansions").getD 100)
+  | "phrase" =>
+    let f := (getOpt j "field").bind (fun v => match v with | .str s => some (toStr s) | _ => none)
+    return .phrase f (← jStrs (← j.getObjVal? "terms")) ((← optNat j "slop").getD 0)
+  | "query_string" =>
+    let fs ← match getOpt j "fields" with
+      | none => pure none
+      | some v => do pure (some (← jFieldNames v))
+    return .queryString (toStr (← getStr j "query")) fs
+  | "multi_match" =>
+    let mt := match getStrD j "match_type" "best_fields" with
+      | "most_fields" => MM.most
+      | "cross_fields" => MM.cross
+      | _ => MM.best
+    let msm ← match getOpt j "minimum_should_match" with
+      | none => pure none
+      | some v => do pure (some (← jMsm v))
+    return .multiMatch (toStr (← getStr j "query")) (← jFieldNames (← j.getObjVal? "fields")) mt
+      (getStrD j "operator" "or" == "and") msm
+  | "dis_max" => return .disMax (← subs "queries")
+  | "bool" =>
+    return .bool (← subs "must") (← subs "should") (← subs "must_not") (← jFlts j "filter")
+      (← optNat j "minimum_should_match")
+  | "constant_score" => return .constantScore (← jFlt (← j.getObjVal? "filter"))
+  | "rank_feature" => return .rankFeature (toStr (← getStr j "field"))
+  | "function_score" =>
+    if getStrD j "boost_mode" "multiply" != "replace" then throw "unsupported: function_score boost_mode other than replace"
+    let mode ← match getStrD j "score_mode" "sum" with
+      | "sum" => pure SMode.sum
+      | "multiply" => pure SMode.multiply
+      | "max" => pure SMode.max
+      | "min" => pure SMode.min
+      | m => throw s!"unsupported: function_score score_mode {m}"
+    let fns ← (← getArr j "functions").toList.mapM (fun f => do
+      if (← getStr f "type") != "weight" then throw "unsupported: function_score function other than weight"
+      let w ← match (← f.getObjVal? "weight").getInt? with
+        | .ok w => pure w
+        | .error _ => throw "unsupported: non-integral weight"
+      let flt ← match getOpt f "filter" with
+        | none => pure none
+        | some v => do pure (some (← jFlt v))
+      pure ({ weight := w, filter := flt } : WFn))
+    if !(fns.any (fun w => w.filter.isNone)) then throw "unsupported: function_score without an unfiltered function"
+    let optInt (k : String) : Except String (Option Int) :=
+      match getOpt j k with
+      | none => pure none
+      | some v => match v.getInt? with
+        | .ok i => pure (some i)
+        | .error _ => throw s!"unsupported: non-integral {k}"
+    return .functionScore (← jQ (← j.getObjVal? "query")) fns mode (← optInt "max_boost") (← optInt "min_score")
+  | "script_score" =>
+    let script ← getStr j "script"
+    let inner ← jQ (← j.getObjVal? "query")
+    if script == "_score" then return .scriptScore inner none
+    -- `_score + 1 / (FIELD - K)`
+    let pre := "_score + 1 / ("
+    if script.startsWith pre && script.endsWith ")" then
+      let body := ((script.drop pre.length).dropRight 1).toString
+      match body.splitOn " - " with
+      | [f, k] =>
+        match k.toInt? with
+        | some kk => return .scriptScore inner (some (toStr f, kk))
+        | none => throw "unsupported: script"
+      | _ => throw "unsupported: script"
+    else throw "unsupported: script"
+  | other => throw s!"unsupported query type {other}"
+
+def jDoc (j : Json) : Except String ADoc := do
+  let text ← (getArrD j "text").toList.mapM (fun e => do
+    let a ← e.getArr?
+    match a.toList with
+    | [f, vals] =>
+      let vs ← (← vals.getArr?).toList.mapM (fun v => do (← v.getArr?).toList.mapM jTok)
+      pure (← jStr f, vs)
+    | _ => throw "text: [field, values] expected")
+  let kw ← (getArrD j "kw").toList.mapM (fun e => do
+    let a ← e.getArr?
+    match a.toList with
+    | [f, vals] => pure (← jStr f, ← jStrs vals)
+    | _ => throw "kw: [field, values] expected")
+  let i64 ← (getArrD j "i64").toList.mapM (fun e => do
+    let a ← e.getArr?
+    match a.toList with
+    | [f, vals] => pure (← jStr f, ← (← vals.getArr?).toList.mapM (·.getInt?))
+    | _ => throw "i64: [field, values] expected")
+  return { id := toStr (← getStr j "id"), text := text, kw := kw, i64 := i64 }
+
+def jSeg (j : Json) : Except String Seg := do
+  let docs ← (← getArr j "docs").toList.mapM jDoc
+  let del ← match getOpt j "deleted" with
+    | none => pure []
+    | some v => natList v
+  return { docs := docs, deleted := del }
+
+def jCtx (req : Json) : Except String Ctx := do
+  let kinds ← (getArrD req "kinds").toList.mapM (fun e => do
+    let a ← e.getArr?
+    match a.toList with
+    | [f, k] =>
+      let kk ← k.getStr?
+      pure (← jStr f, if kk == "text" then Kind.text else if kk == "keyword" then Kind.keyword else Kind.other)
+    | _ => throw "kinds: [field, kind] expected")
+  let analysis ← (getArrD req "analysis").toList.mapM (fun e => do
+    let a ← e.getArr?
+    match a.toList with
+    | [f, t, toks, norm] =>
+      pure ((← jStr f, ← jStr t), (← (← toks.getArr?).toList.mapM jTok, ← jStr norm))
+    | _ => throw "analysis: [field, text, tokens, norm] expected")
+  let rx ← (getArrD req "rx").toList.mapM (fun e => do
+    let a ← e.getArr?
+    match a.toList with
+    | [p, ts] => pure (← jStr p, ← jStrs ts)
+    | _ => throw "rx: [pattern, terms] expected")
+  let fuzzy ← match getOpt req "fuzzy" with
+    | none => pure none
+    | some v => pure (some { maxEdits := getNatD v "max_edits" 1, prefixLength := getNatD v "prefix_length" 1,
+                             maxExpansions := getNatD v "max_expansions" 50, minLength := getNatD v "min_length" 3 : Fuzzy })
+  let look (f t : Str) : Option (List Tok × Str) :=
+    (analysis.find? (fun e => e.1.1 == f && e.1.2 == t)).map (·.2)
+  return {
+    kind := fun f => ((kinds.find? (fun e => e.1 == f)).map (·.2)).getD Kind.other
+    searchAn := fun f t => ((look f t).map (·.1)).getD []
+    normPat := fun f t => ((look f t).map (·.2)).getD t
+    defaultFields := ← match getOpt req "default_fields" with
+      | none => pure []
+      | some v => jStrs v
+    fuzzy := fuzzy
+    rx := fun p t => ((rx.find? (fun e => e.1 == p)).map (fun e => e.2.contains t)).getD false }
+
+def ordsJ (l : List (List Nat)) : Json := Json.arr (l.map natsToJson).toArray
+
+/-- (field, text) pairs to analyse with the search analyzers -/
+def needs (m : Matcher) : List (Str × Str) :=
+  dedup (m.groups.flatMap (fun g => g.fields.map (fun f => (f, g.term))) ++
+    m.phraseSpecs.flatMap (fun p => p.fields.map (fun f =>
+      (f, (match p.terms with | [] => [] | t :: ts => t ++ ts.flatMap (fun x => (32 : Nat) :: x))))))
+
+def handle (req : Json) : Except String Json := do
+  let op ← getStr req "op"
+  match op with
+  | "parse" =>
+    let p := parseQuery (toStr (← getStr req "query"))
+    let qt (t : QTerm) : Json := Json.arr #[(match t.field with | some f => strJ f | none => Json.null), strJ t.term]
+    return Json.mkObj [
+      ("terms", Json.arr (p.terms.map qt).toArray),
+      ("not_terms", Json.arr (p.notTerms.map qt).toArray),
+      ("phrases", Json.arr (p.phrases.map (fun ph =>
+        Json.arr #[(match ph.field with | some f => strJ f | none => Json.null), Json.arr (ph.terms.map strJ).toArray])).toArray)]
+  | "needs" =>
+    let c ← jCtx req
+    let q ← jQ (← req.getObjVal? "query")
+    let m := plan c true q
+    return Json.mkObj [("pairs", Json.arr ((needs m).map (fun p => Json.arr #[strJ p.1, strJ p.2])).toArray)]
+  | "rxneeds" =>
+    let c ← jCtx req
+    let q ← jQ (← req.getObjVal? "query")
+    let m := plan c true q
+    let pats := dedup (m.groups.flatMap (fun g =>
+      match g.exp with
+      | .regex _ => g.fields.flatMap (fun f => (patternTokens c f g.term).map (fun t => (f, t)))
+      | _ => []))
+    return Json.mkObj [("patterns", Json.arr (pats.map (fun p => Json.arr #[strJ p.1, strJ p.2])).toArray)]
+  | "run" =>
+    let c ← jCtx req
+    let q ← jQ (← req.getObjVal? "query")
+    let root ← match getOpt req "filter" with
+      | none => pure none
+      | some v => do pure (some (← jFlt v))
+    let segs ← (← getArr req "segments").toList.mapM jSeg
+    let m := plan c true q
+    let quals := qualified c segs m
+    let mech := SL.Query.searchOrds c segs q root
+    let spec := Spec.searchOrds c segs q root
+    let hasq := segs.map (fun s => (List.range s.docs.length).filter (hasQualified quals s))
+    return Json.mkObj [
+      ("mech", ordsJ mech), ("spec", ordsJ spec), ("has_qualified", ordsJ hasq),
+      ("n_qualified", (quals.length : Nat)),
+      ("expansions_complete", expansionsComplete c segs q),
+      ("below_caps", m.groups.all (belowCaps c segs)),
+      ("root_chain", q.rootChain),
+      ("custom_drop_hit", ordsJ (segs.map (fun s => (List.range s.docs.length).filter (fun o =>
+        match s.docs[o]? with | some d => customDropHit c d true q | none => false)))),
+      ("rx_prefix_ok", m.groups.all (rxPrefixOk c segs)),
+      ("rx_prefix_miss", ordsJ (segs.map (fun s => (List.range s.docs.length).filter (fun o =>
+        match s.docs[o]? with | some d => rxPrefixMiss c m d | none => false)))),
+      ("covered", coveredByScoredTerms c segs q root),
+      ("incomplete_groups", Json.arr (((m.groups.filter (fun g => !groupComplete c segs g)).map
+        (fun g => Json.mkObj [("fields", Json.arr (g.fields.map strJ).toArray), ("term", strJ g.term), ("score", g.score)]))).toArray),
+      ("ids", Json.arr ((SL.Query.search c segs q root).map strJ).toArray)]
+  | _ => throw s!"C07: unknown op {op}"
 
 end SL.Drv.C07
